@@ -117,8 +117,13 @@ func c06Case(c *Ctx) {
 		if tc.Trials > 0 {
 			defer knobs(tc.Trials, tc.FailRate)()
 		}
+		fr := tc.frame()
 		tc.preCalls()
 		E := tc.Rec.Entropy()
+		if msg := tc.frameChanged(fr); msg != "" {
+			c.Violate("call-modified-recipe-fields", msg, map[string]interface{}{"recipe": descChar(tc.Rec)})
+			return
+		}
 		mismatch := ""
 		res := exploreGen(tc.Rec, tc.Lim, func(g GenOut, t *tape.Tape) {
 			if g.Pw != nil && mismatch == "" && math.Float32bits(g.Pw.Entropy) != math.Float32bits(E) {
